@@ -3,7 +3,7 @@
 From Coq Require Import List Bool ZArith NArith.
 From PC Require Import Base.Atoms Base.Xml Model.SchemaSyntax Model.Schema Gen.Schema141
                        Model.Bookkeeping Model.EmitGrammar Model.SchemaIncl
-                       Model.EmitDoc Proofs.BookProofs Proofs.SchemaIncl Proofs.EmitConf Proofs.MeshBook Model.CtorDefaults Proofs.UserIds Proofs.CtorDefaults.
+                       Model.EmitDoc Proofs.BookProofs Proofs.SchemaIncl Proofs.EmitConf Proofs.MeshBook Model.CtorDefaults Proofs.UserIds Proofs.CtorDefaults Proofs.EditInsert Proofs.ConfTools.
 Import ListNotations.
 
 (* ---- bookkeeping, for ALL models of a source / a primitive (Model/Bookkeeping.v: emit_source,
@@ -150,6 +150,28 @@ Theorem C04_default_surface_format : forall fmt0 sid img,
   exists s, xkids (emit_eparam (ctor_surface fmt0 sid img None)) = [s] /\ xkids s = [txt a_init_from img; txt a_format fmt0].
 Proof. intros. apply surface_format_default. Qed.
 Print Assumptions C04_default_surface_format.
+
+(* first step towards "a valid loaded document plus one edit stays valid" (PARTIAL: the
+   <contributor> rule only; the light and sampler2D rules, which use the same placement helper,
+   and the general statement over loaded trees - which needs a model of load - are not done).
+   [place] is util._correctValInNode's placement (behind the last sibling named in [after]); a field
+   that was absent and is set yields exactly the element the writer model emits for the updated
+   contributor, which conforms to the emit grammar. *)
+Theorem C04_contributor_field_insert_conforms_partial : forall lex f v c,
+  wf_contributor lex c = true -> get_field f c = None ->
+  (f = FSource -> tval lex (SLex lx_anyURI) v = true) ->
+  confh emit_grammar lex rContributor
+        (el a_contributor [] None (place (field_after f) (txt (field_tag f) v) (xkids (emit_contributor c)))) = true.
+Proof. exact contributor_insert_conforms. Qed.
+Print Assumptions C04_contributor_field_insert_conforms_partial.
+
+(* the placement matters: appending the author instead (what the defect fixed by /repo 9920088 did)
+   gives a different tree whenever another field is present *)
+Example C04_placement_discriminates :
+  let c := Contributor None None None (Some [TWord 1%N]) None in
+  place (field_after FAuthor) (txt a_author [TWord 2%N]) (xkids (emit_contributor c)) <>
+  xkids (emit_contributor c) ++ [txt a_author [TWord 2%N]].
+Proof. vm_compute. discriminate. Qed.
 
 (* the bookkeeping clauses at the level of the whole <mesh> the writer model emits for a geometry
    (sources, <vertices>, redirected primitives): every failure counter of Model/Bookkeeping.v
